@@ -69,6 +69,10 @@ class Set(Container):
 
         # noinspection PyTypeChecker
         self._element_type = list(element_types)[0]  # type: typing.Type[_any.Any]
+        if issubclass(self._element_type, _primitive.String):
+            # Strings of the same canonical composition are equal, hence one element. The element is kept in that
+            # composed form, or else the text of the set would be that of whichever equal spelling came first.
+            list_of_elements = [_primitive.String(x._normalized) for x in list_of_elements]
         self._value = frozenset(list_of_elements)  # type: typing.FrozenSet[_any.Any]
 
         if not issubclass(self._element_type, _any.Any):
